@@ -229,6 +229,10 @@ def rules(ctx):
     sh = r1_shifts(ctx)
     r2_charges(ctx, sh)
     r3_space_shifts(ctx)
+    # "orthogonal in the model's metric": the tensor handed to the Householder step is the model's metric also in single precision -
+    # an algebraically equal closed form that subtracts two quantities with the same limit is another number there (same rule as C09.R8)
+    from .c09 import r8_conditioning
+    r8_conditioning(ctx, rid="C10.R4", title="the functions of the positions g feeding the metric subtract no two quantities with the same limit on (0, +inf)")
     ctx.trust("torch.exp/log/mean algebra used by the charge domain (exp(a+m) = exp(a)exp(m), ...); sign/norm homogeneity")
     mx = ctx.ix.try_func("leaspy.models.mixture", "RiemanianManifoldMixtureModel._center_sources_realizations")
     if mx is not None:
